@@ -1,4 +1,5 @@
 import ALock.Lemmas.RwLockWord
+import ALock.Lemmas.AtomicRwLock
 
 /-!
 # C11 — RwLock: upgrade, try_upgrade and the downgrades are atomic transitions
@@ -17,6 +18,13 @@ at most one of them exists; `C11_*_keeps_slot` say that `try_upgrade`, `upgrade`
 conversion); `C11_pending_upgrade_excludes` is the last sentence.  The two downgrades to a plain
 read guard are the only conversions that release the slot, and they do so in the same atomic
 step that turns the guard into a read guard.
+
+That last sentence is about the poll-granular model, where a call is one step.  Part 2
+(`ALock.Atomic.RwLock`) looks *inside* the conversions: one step = one atomic operation, any number
+of threads, any interleaving.  `try_upgrade`, `upgrade` and `downgrade_to_upgradable` are a single
+atomic operation on the word (site table, `C11_shape_ok`); `downgrade_write` is two — the
+`fetch_add` and then the release of the inner mutex — and `C11_interleaved_downgrade` covers the
+state in between.
 -/
 
 namespace ALock.RwLock
@@ -100,3 +108,41 @@ example :
     nG (next s (.dropGuard 3)) .uread = 0 := by decide
 
 end ALock.RwLock
+
+/-! ## Part 2 — inside the conversions: every interleaving of the atomic operations -/
+
+namespace ALock.Atomic.RwLock
+
+/-- the conversions are the atomic operations the model has steps for, in this order (generated
+table): in particular `downgrade_write` clears the bit *before* it releases the inner mutex -/
+theorem C11_shape_ok : sites.map Site.shape = expectedShapes := by decide
+
+/-- **C11 (one slot, under every interleaving).** The inner mutex — held by a write guard, an
+upgradable guard, a writer waiting for readers, a pending upgrade, and by a thread in the middle
+of a conversion or an unlock — never has two holders. -/
+theorem C11_interleaved_slot (l : List Step) : mholders (run {} l).ags ≤ 1 :=
+  (run_inv {} l init_inv).mex
+
+/-- **C11 (no window inside a conversion).** While some agent is between the two atomic steps of
+`downgrade_write` (or holds an upgradable guard, or has an upgrade pending), no other agent holds
+or can obtain a write guard: there is no writer, and the inner mutex, which every writer must take
+first, is not available. -/
+theorem C11_interleaved_downgrade (l : List Step) (i : Nat)
+    (h : (run {} l).ags[i]? = some .dw ∨ (run {} l).ags[i]? = some .u ∨ (run {} l).ags[i]? = some .pu) :
+    writers (run {} l).ags = 0 ∧ mholders (run {} l).ags = 1 := by
+  have hi := run_inv {} l init_inv
+  rcases h with h | h | h <;>
+  · obtain ⟨_, hw⟩ := others_zero hi.mex h (by simp [Pc.mh])
+    have := mh_le_mholders h
+    have := hi.mex
+    simp only [Pc.wr, Pc.mh] at *
+    exact ⟨hw, by omega⟩
+
+/-- non-vacuity: a writer queues (it cannot take the inner mutex) while a write guard is being
+downgraded; it gets in only after both steps, and then has to wait for the new reader -/
+example :
+    let s := run {} [.spawn, .spawn, .mLock 0, .wCas0 0, .mLock 1, .dgW1 0, .mLock 1, .dgW2 0,
+      .mLock 1, .wFetchOr 1, .wCheck 1]
+    s.ags = [.r, .ww] ∧ s.state = 3 := by decide
+
+end ALock.Atomic.RwLock
